@@ -344,3 +344,62 @@ Proof.
       rewrite !spec_para_nofmt. exact Hpi.
     + intros x Hx. destruct (Hwf1 x Hx) as [m Hm]. apply (a_ws_items_id c ecmp x m Hm).
 Qed.
+
+(* ---------------------------------------------------------------- the control-file wrappers *)
+Lemma res_map_ext {A B} (f g : A -> res B) l : (forall x, f x = g x) -> res_map f l = res_map g l.
+Proof. intros H. induction l as [|x r IH]; [reflexivity|]. cbn [res_map]. rewrite H, IH. reflexivity. Qed.
+
+Lemma entry_ws_ext V ind iel mll (f1 f2 : str -> str -> res str) e :
+  (forall k v, f1 k v = f2 k v) -> entry_ws V ind iel mll (Some f1) e = entry_ws V ind iel mll (Some f2) e.
+Proof.
+  intros H. unfold entry_ws. destruct (ews_scan (children e) ind [] []) as [[[ind' built] content]| | |]; try reflexivity.
+  cbn [bind]. destruct (_ =? 0)%N; [reflexivity|]. unfold entry_tokens.
+  destruct (existsb is_err_or_comment (strip_trailing content)); [reflexivity|].
+  destruct (entry_key e); [rewrite H|]; reflexivity.
+Qed.
+
+Lemma para_ws_ext V ind iel mll esort (f1 f2 : str -> str -> res str) p :
+  (forall k v, f1 k v = f2 k v) -> para_ws V ind iel mll esort (Some f1) p = para_ws V ind iel mll esort (Some f2) p.
+Proof.
+  intros H. unfold para_ws. destruct (pws_scan V (children p) [] []) as [[ents tr]| | |]; try reflexivity. cbn [bind].
+  rewrite (res_map_ext _ (fun pe : list tree * tree =>
+             bind (res_map emit_token (fst pe)) (fun pre => bind (entry_ws V ind iel mll (Some f2) (snd pe)) (fun e' => Ok (pre ++ [e']))))).
+  - reflexivity.
+  - intros pe. destruct (res_map emit_token (fst pe)); try reflexivity. cbn [bind]. rewrite (entry_ws_ext V ind iel mll f1 f2 (snd pe) H). reflexivity.
+Qed.
+
+Lemma dws_emit_ext V (p1 p2 : tree -> res tree) ps : (forall t, p1 t = p2 t) -> forall first,
+  dws_emit V (Some p1) first ps = dws_emit V (Some p2) first ps.
+Proof.
+  intros H. induction ps as [|[pre p] r IH]; intros first; [reflexivity|]. cbn [dws_emit]. rewrite H.
+  destruct (res_map (emit_current V) pre); try reflexivity. cbn [bind]. destruct (p2 p); try reflexivity. cbn [bind].
+  rewrite (IH false). reflexivity.
+Qed.
+
+(* the control formatter, for a relations formatter that returns *)
+Definition ctl_fmt (r : str -> str) (name value : str) : str :=
+  if str_eqb name Lit.k_Uploaders then fmt_uploaders value
+  else if existsb (str_eqb name) (Lit.relation_fields true) then r value
+  else value.
+Lemma format_field_pure r k v : format_field fixed (fun x => Ok (r x)) k v = Ok (ctl_fmt r k v).
+Proof. unfold format_field, ctl_fmt. cbn [v_typo fixed]. destruct (str_eqb k Lit.k_Uploaders); [reflexivity|]. destruct (existsb (str_eqb k) (Lit.relation_fields true)); reflexivity. Qed.
+
+(* Control::wrap_and_sort is the deb822-level reformatting in control order, no field sort, with the control formatter *)
+Theorem control_ws_is_std c r t :
+  control_ws fixed (fun x => Ok (r x)) (c_ind c) (c_iel c) (c_mll c) t
+  = std_ws fixed c (Some control_order) None (Some (pure_fmt (ctl_fmt r))) t.
+Proof.
+  unfold control_ws, std_ws, doc_ws. destruct (dws_scan fixed (children t) [] []) as [[ps tr]| | |]; try reflexivity. cbn [bind].
+  rewrite (dws_emit_ext fixed _ (para_ws fixed (c_ind c) (c_iel c) (c_mll c) None (Some (pure_fmt (ctl_fmt r))))); [reflexivity|].
+  intros p. unfold control_para_ws. apply para_ws_ext. intros k v. apply format_field_pure.
+Qed.
+
+(* a relationship field that the relations reader rejects makes it panic (format_field unwraps) *)
+Module WC.
+  Import Coq.Strings.String.
+  Local Open Scope string_scope.
+  Definition d_bad_relation : doc := [BPara (mk_field (Lit.s2l "Depends") (Lit.s2l " ") (Lit.s2l "a (= 1") [] true) []].
+End WC.
+Lemma control_unparsable_relation_panics :
+  control_ws fixed (fun _ => Panic 20) (Spaces 1) false None (tree_of WC.d_bad_relation) = Panic 20.
+Proof. vm_compute. reflexivity. Qed.
